@@ -51,7 +51,7 @@ def _sig(sig):
     return name, params[1:-1], ret
 
 
-def induction_obligations(lemma, spec_files, marker, prop, extra_vars=()):
+def induction_obligations(lemma, spec_files, marker, prop, extra_vars=(), fixed_vars=()):
     """Induction over the recursion of one define-funs-rec block.  `prop(name, call, params)` builds the
     property of one function for a call expression (or None if the lemma says nothing about it)."""
     texts = [open(os.path.join(os.path.dirname(SPEC), f)).read() for f in spec_files]
@@ -65,7 +65,7 @@ def induction_obligations(lemma, spec_files, marker, prop, extra_vars=()):
     assert len(sigs) == len(bodies)
     funs = [n for n, _, _ in sigs]
     pre = '(set-logic ALL)\n' + '\n'.join(texts[:-1]) + '\n' + text[:i]
-    decl = []
+    decl = ['(declare-const %s %s)' % v for v in fixed_vars]
     evars = ' '.join('(%s %s)' % v for v in extra_vars)
     for name, params, ret in sigs:
         ps = [p[1:-1].split(None, 1) for p in _sexps(params)]
@@ -104,12 +104,43 @@ def rn_mono_obligations():
     return induction_obligations('L-RN-MONO', ['terms.smt2', 'heap.smt2'], '(define-funs-rec (\n  (rnt ', prop)
 
 
+def rn_len_obligations():
+    """L-RN-LEN: a fresh copy of a list has the length of the original"""
+    def prop(name, call, P):
+        if name != 'rnl':
+            return None
+        return '(= (len (rl %s)) (len %s))' % (call, P['l'])
+    return induction_obligations('L-RN-LEN', ['terms.smt2', 'heap.smt2'], '(define-funs-rec (\n  (rnt ', prop)
+
+
+def len_nonneg_obligation():
+    pre = '(set-logic ALL)\n' + open(SPEC).read().split('; L-LEN-NONNEG')[0]
+    i = pre.index('(define-fun-rec len')
+    pre = pre[:i]
+    q = ('(declare-fun len_ (TList) Int)\n(assert (forall ((l TList)) (! (>= (len_ l) 0) :pattern ((len_ l)))))\n'
+         '(declare-const l TList)\n(assert (not (>= (ite ((_ is nil) l) 0 (+ 1 (len_ (tl l)))) 0)))\n(check-sat)')
+    return [('spec.L-LEN-NONNEG.len', pre + q)]
+
+
+def rn_fresh_obligations():
+    """L-RN-FRESH: with a mapping whose targets are all >= b and a counter n >= b, the copy contains only
+    variables >= b and the extended mapping keeps the property (instance b = n, empty mapping: C13)"""
+    def prop(name, call, P):
+        if name == 'rnt':
+            return ('(=> (and (mapok %s bb) (<= bb %s)) (and (varsge (rt %s) bb) (mapok (rtm %s) bb) (>= (rtn %s) %s)))'
+                    % (P['m'], P['n'], call, call, call, P['n']))
+        return ('(=> (and (mapok %s bb) (<= bb %s)) (and (varsgel (rl %s) bb) (mapok (rlm %s) bb) (>= (rln %s) %s)))'
+                % (P['m'], P['n'], call, call, call, P['n']))
+    return induction_obligations('L-RN-FRESH', ['terms.smt2', 'heap.smt2'], '(define-funs-rec (\n  (rnt ', prop,
+                                 fixed_vars=[('bb', 'Int')])
+
+
 def prove_frame(timeout=20):
-    return smt.run_many(frame_obligations(), timeout=timeout)
+    return smt.run_many(frame_obligations() + len_nonneg_obligation(), timeout=timeout)
 
 
 def prove_heap_lemmas(timeout=20):
-    return smt.run_many(rn_mono_obligations(), timeout=timeout)
+    return smt.run_many(rn_mono_obligations() + rn_len_obligations() + rn_fresh_obligations(), timeout=timeout)
 
 
 if __name__ == '__main__':
